@@ -302,6 +302,97 @@ def gen_branch_desc(rng) -> tuple[dict, list[int]]:
     return desc, x
 
 
+# coefficients of unit-conversion size (amounts tracked in different units, compartment volume ratios): decimal
+# literals and dyadic ones; next to coefficients of order 1 they span 6 to 12 orders of magnitude
+TINY_COEFS = [
+    Fraction("3e-7"), Fraction("2e-9"), Fraction("1.3e-6"), Fraction("7e-7"), Fraction("4.5e-8"), Fraction("2.5e-7"),
+    Fraction("1e-12"), Fraction("6.4e-6"), Fraction("9.99e-7"), Fraction("1.234567e-6"), Fraction("5e-10"),
+    Fraction(1, 2**21), Fraction(1, 2**20), Fraction(3, 2**20), Fraction(5, 2**23), Fraction(1, 2**30), Fraction(1, 2**40),
+]
+# (fid, value of the first parameter, value of the second): a tiny factor COMPUTED from two parameters
+# (23 = mul, 26 = proportional, 51 = div: cell volume / medium volume); Model._create_cache folds it to a number
+TINY_RATIOS = [
+    (23, Fraction(1, 2**11), Fraction(1, 2**10)), (26, Fraction(1, 2**15), Fraction(1, 2**15)), (23, Fraction("3e-4"), Fraction("1e-3")),
+    (51, Fraction("2e-12"), Fraction("1e-3")), (51, Fraction("7e-10"), Fraction("1e-3")), (51, Fraction(3), Fraction(10**7)),
+    (51, Fraction(1), Fraction(2**21)),
+]
+
+
+def gen_tiny_desc(rng) -> tuple[dict, list[int], dict | None]:
+    """A convertible polynomial model in which ONE variable (a big pool tracked in other units) has only coefficients of
+    unit-conversion size (|c| between 1e-12 and 6.4e-6, decimal or dyadic, either sign), one case in two a further tiny
+    coefficient sits next to ordinary ones in another equation, and in four cases of ten one of the pool's coefficients
+    is COMPUTED from two parameters (product or ratio; static: folded to a number by Model._create_cache).  States are
+    non-zero integers, the other parameters integers.  -> (desc, state, parameter update or None).  Oracle only: the
+    decimal coefficients are not dyadic, so nothing here is exact in binary64 (tolerance = 1e-11 * the magnitude of
+    the evaluated expression, c12_oracle.absval)."""
+    desc = gen_desc(rng, rng.choice(["plain", "plain", "plain", "shuffled", "nopars"]))
+    varsn = [n for n, _ in desc["vars"]]
+    plain = [n for n, v in desc["pars"] if v[0] == "plain"]
+    top = [max([n for n, _ in desc["vars"]] + [n for n, _ in desc["pars"]] + [d[0] for d in desc["der"]] + [r[0] for r in desc["rxn"]] + [r[0] for r in desc["ro"]])]
+
+    def fresh() -> int:
+        top[0] += rng.randint(1, 3)
+        return top[0]
+
+    def tiny() -> Fraction:
+        c = rng.choice(TINY_COEFS)
+        return c if rng.random() < 0.5 else -c
+
+    rxns = [[r[0], r[1], list(r[2]), list(r[3])] for r in desc["rxn"]]
+    pool = rng.choice(varsn)
+    for r in rxns:
+        r[3] = [(c, ("num", tiny())) if c == pool else (c, q) for c, q in r[3]]
+    how = "num"
+    if rng.random() < 0.5:
+        r = rng.choice(rxns)
+        i = rng.randrange(len(r[3]))
+        r[3][i] = (r[3][i][0], ("num", tiny()))
+        how = "num+mixed"
+    if rng.random() < 0.4:
+        fid, va, vb = rng.choice(TINY_RATIOS)
+        pa, pb = fresh(), fresh()
+        desc["pars"] = list(desc["pars"]) + [(pa, ("plain", va)), (pb, ("plain", vb))]
+        cands = [r for r in rxns if any(c == pool for c, _ in r[3])]
+        r = rng.choice(cands)
+        i = rng.choice([k for k, (c, _) in enumerate(r[3]) if c == pool])
+        r[3][i] = (pool, ("fun", fid, [pa, pb]))
+        how = "ratio" + how[3:]
+    desc["rxn"] = [(r[0], r[1], r[2], r[3]) for r in rxns]
+    desc["kind"] = f"tiny/{how}"
+    x = [rng.choice([-3, -2, -1, 1, 2, 3]) for _ in varsn]
+    p2 = {k: rng.randint(-3, 3) for k in plain if rng.random() < 0.7} if plain and rng.random() < 0.4 else None
+    return desc, x, p2
+
+
+def is_tiny(desc: dict) -> bool:
+    return str(desc.get("kind", "")).startswith(("tiny/", "corpus/tiny"))
+
+
+# the demo of seeded change C12-9 (polynomial uptake instead of Michaelis-Menten): a substrate is taken up from a big
+# medium pool into a small cell; the medium pool's coefficient is the conversion factor 3e-7, the waste returned to the
+# medium is scaled by the volume ratio v_cell / v_medium = 2e-9 (a Derived of two parameters: static)
+TINY_CORPUS = [
+    (
+        {"vars": [(11, ("plain", 10)), (12, ("plain", 1)), (13, ("plain", 1))],
+         "pars": [(14, ("plain", 4)), (15, ("plain", 3)), (16, ("plain", 2)), (17, ("plain", Fraction("2e-12"))), (18, ("plain", Fraction("1e-3")))],
+         "data": [], "der": [],
+         "rxn": [(21, 29, [11, 14], [(11, ("num", Fraction("-3e-7"))), (12, ("num", Fraction(1)))]),
+                 (22, 29, [12, 15], [(12, ("num", Fraction(-1))), (13, ("fun", 51, [17, 18]))]),
+                 (23, 29, [13, 16], [(13, ("num", Fraction(-1, 2)))])],
+         "ro": [], "kind": "corpus/tiny-conversion-factors"},
+        0, [5, 2, 3], None,
+    ),
+    (
+        {"vars": [(11, ("plain", 1)), (12, ("plain", 2))], "pars": [(13, ("plain", 3))], "data": [], "der": [],
+         "rxn": [(21, 29, [11, 13], [(11, ("num", Fraction("-1.3e-6"))), (12, ("num", Fraction(1)))]),
+                 (22, 31, [12, 12, 13], [(12, ("num", Fraction(-1))), (11, ("num", Fraction(1, 2**21)))])],
+         "ro": [], "kind": "corpus/tiny-nearest-unit-fraction"},
+        1, [2, -3], {13: 2},
+    ),
+]
+
+
 def uses_branching(desc: dict) -> bool:
     ids = set(c12_fns.BRANCH_IDS)
     return (
